@@ -309,7 +309,7 @@ def bounded_native(ck):
             for k, v in cols.items():
                 t[k] = v
             t.meta["OMCINT"] = (1.2345678901234567e-5, "x")
-            path = os.path.join(tmp, "t.fits")
+            path = os.path.join(tmp, "t.fits.gz" if "power,monocloud" in name else "t.fits")  # (one variant as a compressed results file: -o results.fits.gz)
             t.write(path, format="fits", overwrite=True)
             back = Table.read(path, format="fits")
             n += 1
@@ -375,5 +375,9 @@ def run(ck):
     for name, cfg in variants():
         per_variant(ck, name, cfg)
     final_write(ck)
+    from contracts import C14
+
+    ck.bounded_run("results of a run without a surviving trajectory", lambda: C14.native_empty_runs(ck),
+                   design="compute() on two configurations in which nothing survives the geometry stage (non-default settings): the table that would be written carries this run's configuration in its header")
     ck.bounded_run("FITS round trip and reader on real files", lambda: bounded_native(ck),
                    design="6 configuration variants with falsy leaves (enable=False, 0.0), lat != long; 4 columns incl. float32 2-D, +-0, inf, nan, denormal; header completeness; config_from_fits agreement on 8-11 fields")
